@@ -375,13 +375,20 @@ Inductive wact := WSkip | WNotImpl | WCopy.
 Inductive byname_src := ByCache | ByEngine.
 
 Record cfg := mkCfg {
-  sat_plan : option string -> option string -> sat_action;     (* saveAsTable(mode=arg) on a writer with _mode *)
+  sat_plan : bool -> option string -> option string -> sat_action;   (* saveAsTable(mode=arg) on a writer with _mode;
+                                                                         the bool: catalog.tableExists(name) *)
   validate_mode : bool -> option string -> vres;               (* _validate_mode(path exists?, mode) *)
   after_validate : string -> bool -> wact;                     (* DuckDB _write after _validate_mode *)
   path_mode : fmt -> option string -> option string -> option string;  (* mode that csv/json/parquet pass on *)
   add_if_absent : bool;                                        (* catalog.add_table keeps an existing entry *)
-  byname_source : byname_src                                   (* where byName takes the column order from *)
+  byname_source : byname_src;                                  (* where byName takes the column order from *)
+  cleans_new_path_debris : bool                                (* _write removes what a failed COPY left at a NEW path *)
 }.
+
+(** what is left at a path after a failed COPY, for the implementation described by [c]: DuckDB's debris, unless
+    sqlframe removes what appeared at a path that did not exist before *)
+Definition residue_of (c : cfg) : residue_fn :=
+  if cleans_new_path_debris c then atomic_residue else duckdb_residue.
 
 Record mstate := mkM { m_tabs : tables; m_files : files; m_cache : list (string * list string) }.
 Definition m_init : mstate := mkM [] [] [].
@@ -410,7 +417,7 @@ Definition m_insert (c : cfg) (st : mstate) (n : string) (by_name : bool) (d : d
   (mkM tabs' (m_files st) (m_cache st), ob).
 
 Definition m_save (c : cfg) (st : mstate) (n : string) (arg self : option string) (d : df) : mstate * obs :=
-  match sat_plan c arg self with
+  match sat_plan c (ahas n (m_tabs st)) arg self with
   | SatInsert => m_insert c st n false d
   | SatCreate ine orr =>
       let '(tabs', ob) := exec (m_tabs st) (SCreate ine orr n (d, None)) in
@@ -591,9 +598,9 @@ Definition modes : list (option string) :=
   [None; Some "error"; Some "errorifexists"; Some "ignore"; Some "overwrite"; Some "append"].
 Definition mode_known (m : option string) : bool := existsb (optstr_eqb m) modes.
 
-Definition expected_sat (m : option smode) : sat_action :=
+Definition expected_sat (table_exists : bool) (m : option smode) : sat_action :=
   match m with
-  | Some MAppend => SatInsert
+  | Some MAppend => if table_exists then SatInsert else SatCreate false false   (* append creates a missing table *)
   | Some MIgnore => SatCreate true false
   | Some MOverwrite => SatCreate false true
   | _ => SatCreate false false
@@ -625,7 +632,7 @@ Definition pplan_eqb (a b : pplan) : bool :=
     the mode is given, and the path pipeline refuses / skips / copies as the mode asks for *)
 Definition cfg_ok (c : cfg) : bool :=
   forallb (fun a => forallb (fun s =>
-     sat_eqb (sat_plan c a s) (expected_sat (parse_mode (eff_mode a s)))) modes) modes
+     forallb (fun ex => sat_eqb (sat_plan c ex a s) (expected_sat ex (parse_mode (eff_mode a s)))) [true; false]) modes) modes
   && forallb (fun m => forallb (fun ex =>
      pplan_eqb (path_plan c ex m) (expected_plan ex (parse_mode m))) [true; false]) modes.
 
@@ -651,7 +658,7 @@ Definition step_ok (c : cfg) (residue : residue_fn) (st : mstate) (o : op) : boo
       && (if is_append (eff_mode a s)
           then match alookup n (m_tabs st) with
                | Some old => names_eqb (names (df_tbl d)) (names old) && compatible old (df_tbl d)   (* positional = by name *)
-               | None => false                                                                        (* append creates *)
+               | None => true                                                                         (* append creates *)
                end
           else true)
   | OpInsert n b d =>
